@@ -1,8 +1,9 @@
 // hierrec is the F2 recorder for C11 and C12: the CalDAV / CardDAV handlers (and the WebDAV file server and the
 // principal helper for C11) under mount prefixes, with recording backend doubles.
-//   route : one request per (prefix, spelling, path below the prefix, method): status, backend calls (op, path), hrefs
-//   chain : the real clients run the discovery chain over a real HTTP server; results next to the backend's layout
-//   pf    : PROPFIND accounting: propname, allprop and prop(names) answers per resource, parsed by the strict reader
+//
+//	route : one request per (prefix, spelling, path below the prefix, method): status, backend calls (op, path), hrefs
+//	chain : the real clients run the discovery chain over a real HTTP server; results next to the backend's layout
+//	pf    : PROPFIND accounting: propname, allprop and prop(names) answers per resource, parsed by the strict reader
 package main
 
 import (
